@@ -570,19 +570,23 @@ def main(tier, seed):
     except OSError:
         mem_limited = False
     rep.extra["script_memory_limited"] = mem_limited
+    if tier == "quick":
+        # the quick tier keeps the cheap, time-bound shapes (how fast gigabytes are copied depends on the machine)
+        RUNAWAY = {k: v for k, v in RUNAWAY.items() if k in ("plain-loop", "pcall-loop", "calls-in-loop", "recursion", "coroutine")}
     if mem_limited:
         # scripts that eat memory (only sent when the source sets a Lua memory limit; always on servers with a capped address space)
-        RUNAWAY.update({
+        MEM = {
             "memory-bomb": "local t={} while true do t[#t+1]=string.rep('x',1000000)..#t end",
             "doubling-concat": "local s='x' while true do s=s..s end",
             "table-growth": "local t={} local i=0 while true do i=i+1 t[i]={i,i,i} end",
             "expensive-c-calls": "while true do string.rep('x', 3e8) end",
             "bomb-under-pcall": "while true do pcall(function() local t={} while true do t[#t+1]=string.rep('y',1000000)..#t end end) end",
-        })
+        }
+        RUNAWAY.update({"memory-bomb": MEM["memory-bomb"]} if tier == "quick" else MEM)
     if limit_ms > 0:
         import concurrent.futures
-        wait_s = limit_ms / 1000.0 + 6.0
-        with concurrent.futures.ThreadPoolExecutor(max_workers=6) as ex:      # at most 6 spinning / allocating servers at a time
+        wait_s = limit_ms / 1000.0 + 12.0
+        with concurrent.futures.ThreadPoolExecutor(max_workers=4) as ex:      # at most 4 spinning / allocating servers at a time
             futs = {tag: ex.submit(run_script, sc, wait_s) for tag, sc in RUNAWAY.items()}
             for tag, fu in futs.items():
                 out, dt, served, alive = fu.result()
